@@ -44,6 +44,9 @@ type (
 	exactMatcher struct {
 		value string
 	}
+
+	// anyOfMatcher matches, if at least one of its matchers does
+	anyOfMatcher []typedMatcher
 )
 
 func (m *globMatcher) match(value string) bool {
@@ -55,6 +58,16 @@ func (m *regexpMatcher) match(matchAgainst string) bool {
 }
 
 func (m *exactMatcher) match(value string) bool { return m.value == value }
+
+func (m anyOfMatcher) match(value string) bool {
+	for _, matcher := range m {
+		if matcher.match(value) {
+			return true
+		}
+	}
+
+	return false
+}
 
 func newGlobMatcher(pattern string, separator rune) (typedMatcher, error) {
 	if len(pattern) == 0 {
